@@ -103,6 +103,9 @@ func genSig(t *vs.Tape, g *genCtx, allowAuto, allowInvalid bool) detection.Signa
 	s.ID = poolIDs[t.Weighted("sig.id", idw...)]
 	if allowAuto && t.Chance("sig.auto", 1, 12) {
 		s.ID = ""
+	} else if len(g.autoIDs) > 0 && t.Chance("sig.minted", 1, 5) {
+		// an ID the store minted earlier, handed back with new content
+		s.ID = g.autoIDs[t.Intn(len(g.autoIDs), "sig.minted.which")]
 	}
 	s.TopologyHash = th[t.Weighted("sig.topo", 8, 6, 6, 2, 2, 1)]
 	if allowInvalid && t.Chance("sig.invalid", 1, 25) {
